@@ -2,7 +2,8 @@
 
 Case line (harness/h_C14.cpp, ocaml/C14/driver.ml):
   sugar <kind> <depth> <name> <N> <mintext|-> <maxtext|-> <opts|-> <init> <ops> <minconv|-> <maxconv|->
-    kind    P F I O T S1 S5 S16 AI AF AO AT PA PS   (PA/PS: the two ports rParams generates)
+    kind    P F I O OE T S1 S5 S16 AI AF AO AT PA PS   (OE: rOption on a scoped-enum field;
+            PA/PS: the two ports rParams generates)
     depth   0: the port is dispatched at the root, 1: below the rRecur port "sub/"
     opts    k=symbol,...        (the ":map k\\0=symbol" entries, in order)
     init    initial field contents (16 elements for the array kinds, hex buffer for S*)
@@ -25,13 +26,13 @@ HARNESS = ["h_C14.cpp"]
 # instead observed through guard words around every field, the full 16-element
 # backing arrays and an all-other-fields-zero check.
 VARIANT = "plain"
-RULE = ("every macro-generated parameter kind (rParam/char, rParamF, rParamI, rOption, rToggle, rString of "
+RULE = ("every macro-generated parameter kind (rParam/char, rParamF, rParamI, rOption on int and on scoped-enum fields, rToggle, rString of "
         "length 1/5/16, rArrayI, rArrayF, rArrayOption, rArrayT, both ports of rParams) with run-time names "
         "(with and without digits), array lengths 1..16, dispatched at the root or below rRecur; declared "
         "min/max absent / negative / fractional (float kinds) / type extremes; initial contents arbitrary "
         "(also outside the range); 1..12 sets and queries per case with incoming values in range, at and "
         "one step beyond each bound, type extremes (char kinds -128..127 only), +-0, denormals, +-inf, "
-        "non-integral floats, known option symbols (duplicates, non-contiguous indices), strings shorter / "
+        "non-integral floats (a few NaN cases run for model/implementation agreement only), known option symbols (duplicates, non-contiguous indices), strings shorter / "
         "equal / longer than the buffer.  Non-trivial = at least two ops and at least one stored value changed.")
 TRUSTED = ["harness/h_C14.cpp: builds a one-port rtosc::Ports at run time from the macro-generated callback of a "
            "template port and a generated name/metadata block, dispatches real OSC messages into it (directly or "
@@ -102,7 +103,7 @@ FTEXT = ["-1.5", "2.5", "0", "1", "-1", "0.1", "-0.1", "0.5", "1e-3", "100", "-1
          "1e-40", "-0.0", "0.333333", "127", "12.75", "-7.125", "1e10"]
 
 def gen_case(rng, dist):
-    kind = rng.choice(["P", "P", "F", "F", "F", "I", "I", "O", "O", "T", "S1", "S5", "S16",
+    kind = rng.choice(["P", "P", "F", "F", "F", "I", "I", "O", "O", "OE", "T", "S1", "S5", "S16",
                        "AI", "AI", "AF", "AF", "AO", "AO", "AT", "PA", "PS"])
     depth = rng.choice([0, 0, 1])
     name = rng.choice(NAMES)
@@ -128,7 +129,7 @@ def gen_case(rng, dist):
         mx = None if rng.random() < 0.2 else b
         mnc = None if mn is None else "%08x" % f32_bits(float(mn))
         mxc = None if mx is None else "%08x" % f32_bits(float(mx))
-    elif kind in ("O", "AO"):
+    elif kind in ("O", "OE", "AO"):
         n = rng.randint(1, 8)
         style = rng.random()
         if style < 0.6:
@@ -177,6 +178,10 @@ def gen_case(rng, dist):
                 if x == x and abs(x) < 3e38:
                     p.append(f32_bits(x))
         p += [f32_bits(rng.uniform(-300, 300)) for _ in range(2)]
+        if rng.random() < 0.04:
+            # outside the property's quantifier (NaN is not an ordered value): such cases only
+            # check that model and implementation agree, the Spec oracle skips them
+            p += [0x7fc00000, 0xffc00001] * 3
         return p
 
     def rand_val():
@@ -188,7 +193,7 @@ def gen_case(rng, dist):
             return "i%d" % rng.choice(int_pool(INT_MIN, INT_MAX))
         if kind in ("F", "AF"):
             return "f%08x" % rng.choice(flt_pool())
-        if kind in ("O", "AO"):
+        if kind in ("O", "OE", "AO"):
             r = rng.random()
             if r < 0.4:
                 return "S" + rng.choice(opts)[1].encode().hex()
@@ -205,7 +210,7 @@ def gen_case(rng, dist):
     def rand_init_elem():
         if kind in ("P", "AI", "PA", "PS"):
             return str(rng.choice(int_pool(-128, 127)))
-        if kind in ("I", "O", "AO"):
+        if kind in ("I", "O", "OE", "AO"):
             return str(rng.choice(int_pool(INT_MIN, INT_MAX)))
         if kind in ("F", "AF"):
             return "%08x" % rng.choice(flt_pool())
@@ -241,6 +246,8 @@ def gen_case(rng, dist):
     dist["digit-in-name"] = dist.get("digit-in-name", 0) + (1 if any(ch.isdigit() for ch in name) else 0)
     dist["bound-absent"] = dist.get("bound-absent", 0) + (1 if (mn is None) != (mx is None) else 0)
     dist["below-root"] = dist.get("below-root", 0) + depth
+    if kind in ("F", "AF") and ("7fc00000" in init + ";".join(ops) or "ffc00001" in init + ";".join(ops)):
+        dist["nan-tie-only"] = dist.get("nan-tie-only", 0) + 1
     return "sugar %s %d %s %d %s %s %s %s %s %s %s" % (
         kind, depth, name, N, mn or "-", mx or "-",
         ",".join("%d=%s" % kv for kv in opts) or "-", init, ";".join(ops), mnc or "-", mxc or "-")
@@ -325,8 +332,20 @@ class Store:
             x = min(x, int(self.mx))
         return x
 
+def is_nan_bits(b):
+    return (b & 0x7fffffff) > 0x7f800000
+
+def has_nan(f):
+    if f[1] not in ("F", "AF"):
+        return False
+    vals = [int(x, 16) for x in f[8].split(",")]
+    vals += [int(o.partition("=")[2][1:], 16) for o in f[9].split(";") if o[0] == "s"]
+    return any(is_nan_bits(b) for b in vals)
+
 def spec_check(case, impl):
     f = case.split(" ")
+    if has_nan(f):
+        return None if "#" in impl else "crash: " + impl[:200]
     if impl.startswith("CRASH") or impl.startswith("NOOUT") or impl.startswith("BAD"):
         return "crash: " + impl[:200]
     st = Store(f)
@@ -342,7 +361,7 @@ def spec_check(case, impl):
     ops = f[9].split(";")
     if len(pieces) != len(ops):
         return "format: %d answers for %d ops" % (len(pieces), len(ops))
-    numeric = k in ("P", "F", "I", "O", "AI", "AF", "AO", "PA")
+    numeric = k in ("P", "F", "I", "O", "OE", "AI", "AF", "AO", "PA")
     for n, (op, piece) in enumerate(zip(ops, pieces)):
         body = op[1:]
         idxt, _, tv = body.partition("=")
@@ -431,7 +450,7 @@ def canon(case, line):
     return line
 
 def nontrivial(case, impl):
-    return case.count(";") >= 1 and ("b:" in impl)
+    return case.count(";") >= 1 and ("b:" in impl) and not has_nan(case.split(" "))
 
 def classify(case, impl, failure):
     return None
